@@ -452,6 +452,8 @@ def _read_block_items_maybe(
     if multiple:
         return _read_block_items(docstring, offset=offset, **options)
     one_block, new_offset = _read_block(docstring, offset=offset, **options)
+    if not one_block:
+        return [], new_offset
     return [(new_offset, one_block.splitlines())], new_offset
 
 
